@@ -144,7 +144,7 @@ Proof.
   - unfold re_delegate in H. guards H. inversion H; subst. left; reflexivity.
   - unfold edit_bridger in H. guards H. inversion H; subst. left; reflexivity.
   - unfold withdraw_reward in H. guards H. inversion H; subst. left; reflexivity.
-  - unfold unbond in H. guards H. inversion H; subst. left; reflexivity.
+  - unfold unbond, unbond_gen in H. guards H. inversion H; subst. left; reflexivity.
   - destruct (memZ a l) eqn:ML.
     + left. eapply gov_set_govund'; eauto.
     + destruct (memZ a (proposal s)) eqn:MP.
@@ -181,13 +181,30 @@ Proof.
   intros h t ub vs p ops s a r -> Hr. destruct (reachable_inv h t ub vs p ops) as (_ & _ & SL). eauto.
 Qed.
 
+Lemma charged_bounds : forall cap sl0 bal, 0 <= sl0 -> 0 <= charged cap sl0 bal <= sl0.
+Proof.
+  intros cap sl0 bal H. unfold charged. destruct cap.
+  - destruct (0 <? Z.min sl0 bal) eqn:P; [apply Z.ltb_lt in P|]; lia.
+  - destruct (0 <? sl0) eqn:P; [apply Z.ltb_lt in P|]; lia.
+Qed.
+Lemma charged_zero : forall cap bal, charged cap 0 bal = 0.
+Proof. intros. pose proof (charged_bounds cap 0 bal ltac:(lia)). lia. Qed.
+Lemma charged_refuse : forall sl0 bal, 0 <= sl0 -> charged false sl0 bal = sl0.
+Proof. intros. unfold charged. destruct (0 <? sl0) eqn:P; [reflexivity | apply Z.ltb_ge in P; lia]. Qed.
+Lemma charged_cap : forall sl0 bal, 0 <= sl0 -> 0 <= bal -> charged true sl0 bal = Z.min sl0 bal.
+Proof. intros. unfold charged. destruct (0 <? Z.min sl0 bal) eqn:P; [reflexivity | apply Z.ltb_ge in P; lia]. Qed.
+
 (* the only transitions that burn anything are AddDelegate and UnbondedOracle of an oracle with an
-   unpaid penalty; they burn exactly its penalty and leave no unpaid penalty behind *)
+   unpaid penalty; AddDelegate burns exactly its penalty, UnbondedOracle what the checked tree's rule charges
+   ([charged]: the penalty, or with the cap min(penalty, delegate balance)); no unpaid penalty is left behind *)
 Theorem penalty_charged_once : forall s o s', reg_inv s -> step s o = Ok s' ->
   burned s' = burned s \/
   exists a r, recs s a = Some r /\ o_slash r = 1 /\ o_online r = false /\
-    ((exists amt rw, o = AddDelegate a amt rw) \/ o = Unbond a) /\
-    burned s' = burned s + slash_amount r (p_fraction (prm s)) /\
+    (((exists amt rw, o = AddDelegate a amt rw) /\ burned s' = burned s + slash_amount r (p_fraction (prm s))) \/
+     (o = Unbond a /\
+      burned s' = burned s + charged Gen_OracleSlash.unbond_penalty_capped (slash_amount r (p_fraction (prm s))) (bal_d s a) /\
+      0 <= charged Gen_OracleSlash.unbond_penalty_capped (slash_amount r (p_fraction (prm s))) (bal_d s a)
+        <= slash_amount r (p_fraction (prm s)))) /\
     slash_amount r (p_fraction (prm s)) <= Z.max 0 (o_amount r) /\
     (recs s' a = None \/ exists r', recs s' a = Some r' /\ o_slash r' = 0 /\ o_online r' = true).
 Proof.
@@ -196,21 +213,18 @@ Proof.
   - destruct (add_delegate_rules _ _ _ _ _ H) as (r & Hr & _ & A0 & _ & _ & Hr' & _ & _ & B).
     destruct (SL _ _ Hr) as [Z0|[Z1 Off]].
     + left. rewrite B, (slash_amount_zero _ _ Z0). lia.
-    + right. exists a, r. repeat split; auto.
-      * left; eauto.
-      * apply slash_amount_le.
-      * right. eexists. split; [exact Hr'|]. cbn. auto.
+    + right. exists a, r. split; auto. split; auto. split; auto.
+      split; [left; split; [eauto | exact B]|]. split; [apply slash_amount_le|].
+      right. eexists. split; [exact Hr'|]. cbn. auto.
   - unfold re_delegate in H. guards H. inversion H; subst. left; reflexivity.
   - unfold edit_bridger in H. guards H. inversion H; subst. left; reflexivity.
   - unfold withdraw_reward in H. guards H. inversion H; subst. left; reflexivity.
-  - unfold unbond in H. guards H. inversion H; subst; clear H. rename o into r. proj.
+  - unfold unbond, unbond_gen in H. guards H. inversion H; subst; clear H. rename o into r. proj.
     destruct (SL _ _ Heqo) as [Z0|[Z1 Off]].
-    + left. rewrite (slash_amount_zero _ _ Z0). cbn. lia.
-    + right. exists a, r. repeat split; auto.
-      * pose proof (slash_amount_nonneg r (p_fraction (prm s))).
-        destruct (0 <? slash_amount r (p_fraction (prm s))) eqn:P; [reflexivity|]. apply Z.ltb_ge in P. lia.
-      * apply slash_amount_le.
-      * left. apply upd_same.
+    + left. rewrite (slash_amount_zero _ _ Z0), charged_zero. lia.
+    + right. exists a, r. split; auto. split; auto. split; auto.
+      split; [right; split; [reflexivity|]; split; [reflexivity | apply charged_bounds, slash_amount_nonneg]|].
+      split; [apply slash_amount_le|]. left. apply upd_same.
   - left. destruct (gov_set_spec _ _ _ _ I (conj K SL) H) as (_ & _ & _ & _ & _ & _ & B & _). exact B.
   - unfold set_params in H. guards H. inversion H; subst. left; reflexivity.
   - unfold confirm in H. guards H. inversion H; subst. left; destruct k; reflexivity.
@@ -308,7 +322,7 @@ Proof.
     + rewrite upd_same in Hr'. inversion Hr'; subst r'. cbn in Off. congruence.
     + rewrite upd_other in Hr' by auto. congruence.
   - exfalso. unfold withdraw_reward in H. guards H. inversion H; subst; clear H. proj. congruence.
-  - exfalso. unfold unbond in H. guards H. inversion H; subst; clear H. proj.
+  - exfalso. unfold unbond, unbond_gen in H. guards H. inversion H; subst; clear H. proj.
     destruct (Z.eq_dec a a0) as [->|N].
     + rewrite upd_same in Hr'. discriminate.
     + rewrite upd_other in Hr' by auto. congruence.
@@ -380,7 +394,7 @@ Proof.
     destruct (upd_cases _ (recs s) a0 (Some (mkOracle (o_addr o) b (o_ext o) (o_amount o) (o_start o) (o_online o) (o_val o) (o_slash o))) a) as [[-> E]|[_ E]];
       rewrite E in Lt; [rewrite Heqo in Lt; cbn in Lt|]; lia.
   - exfalso. unfold withdraw_reward in H. guards H. inversion H; subst; clear H. proj. lia.
-  - exfalso. unfold unbond in H. guards H. inversion H; subst; clear H. proj.
+  - exfalso. unfold unbond, unbond_gen in H. guards H. inversion H; subst; clear H. proj.
     destruct (upd_cases _ (recs s) a0 None a) as [[-> E]|[_ E]]; rewrite E in Lt; [|lia].
     rewrite Heqo in Lt. specialize (NN _ Heqo). lia.
   - exfalso. destruct (gov_set_spec _ _ _ _ I (conj K SL) H) as (_ & _ & _ & L & _ & E & _).
@@ -461,31 +475,27 @@ Proof.
 Qed.
 
 (* ------------------------------------------------------------------ *)
-(* unbonding                                                           *)
+(* unbonding: what an accepted UnbondedOracle does, for every variant of the two re-read points *)
 
-Theorem unbond_spec : forall s a s', unbond s a = Ok s' ->
+Theorem unbond_gen_spec : forall ne cap s a s', unbond_gen ne cap s a = Ok s' ->
   exists r, recs s a = Some r /\ ~ In a (proposal s) /\ o_online r = false /\
-    has_ubd a (o_val r) (ubds s) = Gen_OracleSlash.unbond_needs_entry /\
-    bal_o s' a = bal_o s a + (bal_d s a - slash_amount r (p_fraction (prm s))) /\
-    (0 < slash_amount r (p_fraction (prm s)) -> slash_amount r (p_fraction (prm s)) <= bal_d s a) /\
-    bal_d s' a = 0 /\ burned s' = burned s + slash_amount r (p_fraction (prm s)) /\
+    has_ubd a (o_val r) (ubds s) = ne /\
+    (cap = false -> 0 < slash_amount r (p_fraction (prm s)) -> slash_amount r (p_fraction (prm s)) <= bal_d s a) /\
+    let ch := charged cap (slash_amount r (p_fraction (prm s))) (bal_d s a) in
+    bal_o s' a = bal_o s a + (bal_d s a - ch) /\ bal_d s' a = 0 /\ burned s' = burned s + ch /\
     recs s' a = None /\ by_bridger s' (o_bridger r) = None /\ by_ext s' (o_ext r) = None /\
     ubds s' = ubds s /\
-    (forall s'', unbond s' a <> Ok s'').
+    (forall ne' cap' s'', unbond_gen ne' cap' s' a <> Ok s'').
 Proof.
-  intros s a s' H. unfold unbond in H. guards H. inversion H; subst; clear H. rename o into r.
+  intros ne cap s a s' H. unfold unbond_gen in H. guards H. inversion H; subst; clear H. rename o into r.
   exists r. split; auto. split; [intro X; apply memZ_In in X; congruence|]. split; auto.
   split; [match goal with G : Bool.eqb _ _ = true |- _ => apply Bool.eqb_prop in G; exact G end|].
-  proj. rewrite !upd_same.
-  pose proof (slash_amount_nonneg r (p_fraction (prm s))) as SN.
-  set (sl := slash_amount r (p_fraction (prm s))) in *.
-  assert (E : (if 0 <? sl then sl else 0) = sl) by (destruct (0 <? sl) eqn:P; [reflexivity | apply Z.ltb_ge in P; lia]).
-  rewrite E.
-  repeat split; auto.
-  - intros P. match goal with G : ((0 <? sl) && (bal_d s a <? sl)) = false |- _ =>
-      apply Z.ltb_lt in P; rewrite P in G; cbn [andb] in G; apply Z.ltb_ge in G; exact G end.
-  - intros s'' H2. unfold unbond in H2; proj. rewrite upd_same in H2.
-    destruct (memZ a (proposal s)); discriminate.
+  split.
+  { intros -> P. match goal with G : (negb false && _ && _) = false |- _ =>
+      apply Z.ltb_lt in P; rewrite P in G; cbn [negb andb] in G; apply Z.ltb_ge in G; exact G end. }
+  cbv zeta. proj. rewrite !upd_same. repeat split; auto.
+  intros ne' cap' s'' H2. unfold unbond_gen in H2; proj. rewrite upd_same in H2.
+  destruct (memZ a (proposal s)); discriminate.
 Qed.
 
 Lemma has_ubd_false : forall a v l, (forall u, In u l -> u_orc u <> a) -> has_ubd a v l = false.
@@ -495,56 +505,18 @@ Proof.
   apply (H u Hu Hc).
 Qed.
 
-(* the inverted condition, in general (it is what [unbond_needs_entry = true] means): once nothing of the
-   oracle is left in the unbonding queue, UnbondedOracle is refused *)
-Theorem unbond_refused_without_pending_entry : Gen_OracleSlash.unbond_needs_entry = true -> forall s a,
-  (forall u, In u (ubds s) -> u_orc u <> a) -> forall s', unbond s a <> Ok s'.
+(* when is it accepted: removed, offline, the entry test passes, and (refusing variant) the balance covers the penalty *)
+Theorem unbond_gen_accepts : forall ne cap s a r, recs s a = Some r -> ~ In a (proposal s) -> o_online r = false ->
+  has_ubd a (o_val r) (ubds s) = ne ->
+  (cap = false -> 0 < slash_amount r (p_fraction (prm s)) -> slash_amount r (p_fraction (prm s)) <= bal_d s a) ->
+  exists s', unbond_gen ne cap s a = Ok s'.
 Proof.
-  intros F s a H s' U. apply unbond_spec in U. destruct U as (r & _ & _ & _ & HU & _).
-  rewrite (has_ubd_false a (o_val r) (ubds s) H), F in HU. discriminate.
-Qed.
-
-(* ... in particular after the block whose time reaches the completion time of all its entries *)
-Theorem unbond_refused_after_maturity : Gen_OracleSlash.unbond_needs_entry = true ->
-  forall s t1 t2 pd s1 a, end_block s t1 t2 pd = Ok s1 ->
-  (forall u, In u (ubds s) -> u_orc u = a -> u_time u <= t1) ->
-  (forall s2, unbond s1 a <> Ok s2) /\ bal_d s1 a = bal_d s a + matured_sum t1 (ubds s) a.
-Proof.
-  intros F s t1 t2 pd s1 a H M. apply end_block_spec in H.
-  destruct H as (_ & _ & _ & _ & _ & _ & _ & _ & _ & BD & UB & _).
-  split; [|apply BD].
-  apply unbond_refused_without_pending_entry; auto. rewrite UB. intros u Hu Eq.
-  apply filter_In in Hu. destruct Hu as [Hu Hc]. apply Bool.negb_true_iff in Hc. apply Z.leb_gt in Hc.
-  specialize (M u Hu Eq). lia.
-Qed.
-
-(* so every accepted UnbondedOracle leaves stake of the oracle behind in the unbonding queue: the
-   records are deleted, the entry matures later into the delegate address that nobody can move *)
-Theorem unbond_accepted_forfeits_pending_stake : Gen_OracleSlash.unbond_needs_entry = true ->
-  forall s a s', unbond s a = Ok s' ->
-  exists u, In u (ubds s') /\ u_orc u = a /\ recs s' a = None.
-Proof.
-  intros F s a s' H. destruct (unbond_spec _ _ _ H) as (r & _ & _ & _ & HU & _ & _ & _ & _ & RN & _ & _ & UE & _).
-  rewrite F in HU. unfold has_ubd in HU. apply existsb_exists in HU. destruct HU as (u & Hu & Hc).
-  apply andb_true_iff in Hc. destruct Hc as [Hc _]. apply Z.eqb_eq in Hc.
-  exists u. rewrite UE. repeat split; auto.
-Qed.
-
-(* the intended behaviour, proved for a tree in which the test is the other way round
-   ([unbond_needs_entry = false], i.e. after the patch proposed in docs/findings/C13-1.md): once governance has
-   removed the oracle and nothing of it is left in the unbonding queue, the withdrawal is accepted (and by
-   [unbond_spec] pays delegate balance - penalty, deletes the records, and cannot be repeated) *)
-Theorem unbond_after_maturity_accepted_if_fixed : Gen_OracleSlash.unbond_needs_entry = false ->
-  forall s a r, recs s a = Some r -> ~ In a (proposal s) -> o_online r = false ->
-  (forall u, In u (ubds s) -> u_orc u <> a) ->
-  (0 < slash_amount r (p_fraction (prm s)) -> slash_amount r (p_fraction (prm s)) <= bal_d s a) ->
-  exists s', unbond s a = Ok s'.
-Proof.
-  intros F s a r Hr Hp Off HU HS. unfold unbond.
+  intros ne cap s a r Hr Hp Off HU HS. unfold unbond_gen.
   destruct (memZ a (proposal s)) eqn:MP; [exfalso; apply Hp; apply memZ_In; auto|].
-  rewrite Hr, Off, (has_ubd_false a (o_val r) (ubds s) HU), F. cbn [Bool.eqb negb].
-  destruct ((0 <? slash_amount r (p_fraction (prm s))) && (bal_d s a <? slash_amount r (p_fraction (prm s)))) eqn:G.
-  - exfalso. apply andb_true_iff in G. destruct G as [G1 G2]. apply Z.ltb_lt in G1, G2. specialize (HS G1). lia.
+  rewrite Hr, Off, HU, Bool.eqb_reflx. cbn [negb].
+  destruct (negb cap && (0 <? slash_amount r (p_fraction (prm s))) && (bal_d s a <? slash_amount r (p_fraction (prm s)))) eqn:G.
+  - exfalso. apply andb_true_iff in G. destruct G as [G G2]. apply andb_true_iff in G. destruct G as [G0 G1].
+    apply Bool.negb_true_iff in G0. apply Z.ltb_lt in G1, G2. specialize (HS G0 G1). lia.
   - eexists. reflexivity.
 Qed.
 
@@ -583,46 +555,8 @@ Definition w_D : list op :=
 Definition is_ok (r : res) : bool := match r with Ok _ => true | _ => false end.
 Lemma step_exec_ok : forall s o, is_ok (step s o) = true -> step s o = Ok (exec s o).
 Proof. intros s o H. unfold exec. destruct (step s o); cbn in H; try discriminate; reflexivity. Qed.
-
-(* The two witnesses are stated for the tree as it is ([unbond_needs_entry = true], re-read from the source
-   on every run).  On a tree where the test has been turned round the hypothesis is false, the statements
-   hold vacuously, and [unbond_after_maturity_accepted_if_fixed] applies instead. *)
-Theorem unbond_after_maturity_refuted : Gen_OracleSlash.unbond_needs_entry = true -> exists ops a r,
-  let s := run w_init ops in
-  recs s a = Some r /\ ~ In a (proposal s) /\ o_online r = false /\ o_slash r = 0 /\
-  (forall u, In u (ubds s) -> u_orc u <> a) /\
-  o_amount r = FX 10000 /\ bal_d s a = FX 10000 + 7 /\
-  step s (Unbond a) = Err e_staking.
-Proof.
-  intro F; first
-  [ discriminate F
-  | exists w_A, 0, (mkOracle 0 100 200 (FX 10000) 2 false 0 0); cbv zeta;
-    split; [vm_compute; reflexivity|];
-    split; [vm_compute; intuition discriminate|];
-    split; [reflexivity|]; split; [reflexivity|];
-    split; [assert (E : ubds (run w_init w_A) = []) by (vm_compute; reflexivity); rewrite E; intros u []|];
-    split; [reflexivity|]; split; vm_compute; reflexivity ].
-Qed.
-
-(* ... and before maturity it is accepted, pays only what is liquid (the 7 units of reward), deletes the
-   records; the stake matures into the delegate address of an oracle that no longer exists, and a second
-   withdrawal is refused *)
-Theorem unbond_before_maturity_refuted : Gen_OracleSlash.unbond_needs_entry = true -> exists ops a,
-  let s := run w_init ops in
-  exists s1, step s (Unbond a) = Ok s1 /\
-    bal_o s1 a - bal_o s a = 7 /\ recs s1 a = None /\ burned s1 = 0 /\
-    (exists u, In u (ubds s1) /\ u_orc u = a /\ u_amt u = FX 10000) /\
-    let s2 := exec s1 (EndBlock 1814500 1814505 true) in
-    bal_d s2 a = FX 10000 /\ recs s2 a = None /\ step s2 (Unbond a) = Err e_notfound.
-Proof.
-  intro F; first
-  [ discriminate F
-  | exists w_B, 0; cbv zeta; exists (exec (run w_init w_B) (Unbond 0));
-    split; [apply step_exec_ok; vm_compute; reflexivity|];
-    split; [vm_compute; reflexivity|]; split; [vm_compute; reflexivity|]; split; [vm_compute; reflexivity|];
-    split; [exists (mkUbd 0 0 1814410 (FX 10000) 3 (FX 10000)); vm_compute; auto|];
-    split; [vm_compute; reflexivity|]; split; vm_compute; reflexivity ].
-Qed.
+Lemma step_with_exec_ok : forall ne cap s o, is_ok (step_with ne cap s o) = true -> step_with ne cap s o = Ok (exec_with ne cap s o).
+Proof. intros ne cap s o H. unfold exec_with. destruct (step_with ne cap s o); cbn in H; try discriminate; reflexivity. Qed.
 
 (* "the stake recorded for an oracle is exactly what ... is delegated on its behalf": FALSE of the code —
    an online oracle with 10000 FX + 1 recorded (power 100) and ONE base unit delegated *)
@@ -657,42 +591,149 @@ Example c13_nonvacuous :
 Proof. vm_compute. repeat split; reflexivity. Qed.
 
 (* ------------------------------------------------------------------ *)
-(* "after governance removes an oracle and the unbonding period has passed the oracle can withdraw its
-   stake minus penalties exactly once" — for the tree in which UnbondedOracle refuses WHILE an unbonding
-   entry exists ([unbond_needs_entry = false], the test as it reads since the C13-1 fix) *)
-Theorem unbond_once_if_fixed : Gen_OracleSlash.unbond_needs_entry = false ->
-  forall s a r, recs s a = Some r -> ~ In a (proposal s) -> o_online r = false ->
-  (forall u, In u (ubds s) -> u_orc u <> a) ->                       (* nothing of it left in the unbonding queue *)
-  (0 < slash_amount r (p_fraction (prm s)) -> slash_amount r (p_fraction (prm s)) <= bal_d s a) ->
+(* THE TREE AS IT IS: the facts the translator reads about UnbondedOracle, pinned.  A tree on which the entry test
+   is the other way round makes [tree_unbond_rule] (and everything stated "on tree" below) fail to compile. *)
+Theorem tree_unbond_rule : Gen_OracleSlash.unbond_needs_entry = false.
+Proof. reflexivity. Qed.
+
+Lemma unbond_on_tree : forall s a, unbond s a = unbond_gen false Gen_OracleSlash.unbond_penalty_capped s a.
+Proof. intros. unfold unbond. rewrite tree_unbond_rule. reflexivity. Qed.
+
+(* "after governance removes an oracle and the unbonding period has passed the oracle can withdraw its stake minus
+   penalties exactly once", on the checked tree: removed, offline, nothing of it left in the unbonding queue (and, while
+   the tree still refuses instead of capping, the delegate balance covers the penalty) => accepted; the oracle receives
+   delegate balance - charge, the charge is burned, the delegate address ends empty, record and both index entries are
+   deleted, a second withdrawal fails *)
+Theorem unbond_once_on_tree : forall s a r, recs s a = Some r -> ~ In a (proposal s) -> o_online r = false ->
+  (forall u, In u (ubds s) -> u_orc u <> a) ->
+  (Gen_OracleSlash.unbond_penalty_capped = false ->
+     0 < slash_amount r (p_fraction (prm s)) -> slash_amount r (p_fraction (prm s)) <= bal_d s a) ->
+  let ch := charged Gen_OracleSlash.unbond_penalty_capped (slash_amount r (p_fraction (prm s))) (bal_d s a) in
   exists s', step s (Unbond a) = Ok s' /\
-    bal_o s' a = bal_o s a + (bal_d s a - slash_amount r (p_fraction (prm s))) /\
-    bal_d s' a = 0 /\ burned s' = burned s + slash_amount r (p_fraction (prm s)) /\
+    bal_o s' a = bal_o s a + (bal_d s a - ch) /\ bal_d s' a = 0 /\ burned s' = burned s + ch /\
+    0 <= ch <= slash_amount r (p_fraction (prm s)) /\
     recs s' a = None /\ by_bridger s' (o_bridger r) = None /\ by_ext s' (o_ext r) = None /\
     (forall s'', step s' (Unbond a) <> Ok s'').
 Proof.
-  intros F s a r Hr Hp Off HU HS.
-  destruct (unbond_after_maturity_accepted_if_fixed F s a r Hr Hp Off HU HS) as (s' & U).
+  intros s a r Hr Hp Off HU HS. cbv zeta. cbn [step]. rewrite unbond_on_tree.
+  destruct (unbond_gen_accepts false _ s a r Hr Hp Off (has_ubd_false a (o_val r) (ubds s) HU) HS) as (s' & U).
   exists s'. split; [exact U|].
-  destruct (unbond_spec _ _ _ U) as (r0 & Hr0 & _ & _ & _ & B & _ & D & Bu & RN & IB & IE & _ & Tw).
-  assert (r0 = r) by congruence. subst r0. repeat split; auto.
+  destruct (unbond_gen_spec _ _ _ _ _ U) as (r0 & Hr0 & _ & _ & _ & _ & B & D & Bu & RN & IB & IE & _ & Tw).
+  assert (r0 = r) by congruence. subst r0. repeat split; auto;
+    try (apply charged_bounds, slash_amount_nonneg).
+  intros s'' X. cbn [step] in X. unfold unbond in X. apply (Tw _ _ _ X).
 Qed.
 
-(* and while stake is still in the queue it is refused, so nothing can be forfeited *)
-Theorem unbond_refused_while_pending_if_fixed : Gen_OracleSlash.unbond_needs_entry = false ->
-  forall s a r, recs s a = Some r -> has_ubd a (o_val r) (ubds s) = true -> forall s', unbond s a <> Ok s'.
+(* while stake is still in the queue it is refused, so nothing can be forfeited *)
+Theorem unbond_refused_while_pending_on_tree : forall s a r,
+  recs s a = Some r -> has_ubd a (o_val r) (ubds s) = true -> forall s', step s (Unbond a) <> Ok s'.
 Proof.
-  intros F s a r Hr HU s' U. destruct (unbond_spec _ _ _ U) as (r0 & Hr0 & _ & _ & HU0 & _).
-  assert (r0 = r) by congruence. subst r0. rewrite F in HU0. congruence.
+  intros s a r Hr HU s' U. cbn [step] in U. rewrite unbond_on_tree in U.
+  destruct (unbond_gen_spec _ _ _ _ _ U) as (r0 & Hr0 & _ & _ & HU0 & _).
+  assert (r0 = r) by congruence. subst r0. congruence.
 Qed.
 
-(* the full life cycle, computed on the model of the fixed tree (history A: bonded 10000 FX, removed by
-   governance with 7 units of reward paid out, unbonding period passes): the withdrawal pays 10000 FX + 7,
-   deletes the records, a second one is refused.  History E: the same for an oracle that did not sign
-   oracle set 1, was penalised (80 %) and then removed: it gets 2000 FX, 8000 FX are burned. *)
+(* the capped variant of the penalty rule (the C13-3 patch), whatever the tree says: always accepted once the entry
+   test passes; the oracle receives max(0, matured - penalty), exactly min(penalty, matured) is burned, the delegate
+   address ends empty, the records are deleted *)
+Theorem unbond_capped_pays : forall ne s a r, recs s a = Some r -> ~ In a (proposal s) -> o_online r = false ->
+  has_ubd a (o_val r) (ubds s) = ne -> 0 <= bal_d s a ->
+  exists s', unbond_gen ne true s a = Ok s' /\
+    bal_o s' a = bal_o s a + Z.max 0 (bal_d s a - slash_amount r (p_fraction (prm s))) /\
+    burned s' = burned s + Z.min (slash_amount r (p_fraction (prm s))) (bal_d s a) /\
+    bal_d s' a = 0 /\ recs s' a = None /\ by_bridger s' (o_bridger r) = None /\ by_ext s' (o_ext r) = None /\
+    (forall ne' cap' s'', unbond_gen ne' cap' s' a <> Ok s'').
+Proof.
+  intros ne s a r Hr Hp Off HU HB.
+  destruct (unbond_gen_accepts ne true s a r Hr Hp Off HU ltac:(discriminate)) as (s' & U).
+  exists s'. split; [exact U|].
+  destruct (unbond_gen_spec _ _ _ _ _ U) as (r0 & Hr0 & _ & _ & _ & _ & B & D & Bu & RN & IB & IE & _ & Tw).
+  assert (r0 = r) by congruence. subst r0. cbv zeta in *.
+  pose proof (slash_amount_nonneg r (p_fraction (prm s))) as SN.
+  rewrite charged_cap in * by auto. repeat split; auto. rewrite B. lia.
+Qed.
+
+(* the refusing variant (the tree before the C13-3 patch), whatever the tree says: refused when the balance is smaller
+   than the penalty computed from the recorded stake *)
+Theorem unbond_refusing_variant_refuses : forall ne s a r, recs s a = Some r ->
+  0 < slash_amount r (p_fraction (prm s)) -> bal_d s a < slash_amount r (p_fraction (prm s)) ->
+  forall s', unbond_gen ne false s a <> Ok s'.
+Proof.
+  intros ne s a r Hr P L s' U. destruct (unbond_gen_spec _ _ _ _ _ U) as (r0 & Hr0 & _ & _ & _ & G & _).
+  assert (r0 = r) by congruence. subst r0. specialize (G eq_refl P). lia.
+Qed.
+
+(* ------------------------------------------------------------------ *)
+(* REFUTATION OF THE PRE-FIX ENTRY TEST (finding C13-1, fixed in /repo by f3a025e), stated about the explicit variant
+   [unbond_gen true _] / [step_with true _]; the witnesses are evaluated, not assumed away *)
+Theorem prefix_unbond_refused_without_pending_entry : forall cap s a,
+  (forall u, In u (ubds s) -> u_orc u <> a) -> forall s', unbond_gen true cap s a <> Ok s'.
+Proof.
+  intros cap s a H s' U. destruct (unbond_gen_spec _ _ _ _ _ U) as (r & _ & _ & _ & HU & _).
+  rewrite (has_ubd_false a (o_val r) (ubds s) H) in HU. discriminate.
+Qed.
+
+Theorem prefix_unbond_refused_after_maturity : forall cap s t1 t2 pd s1 a, end_block s t1 t2 pd = Ok s1 ->
+  (forall u, In u (ubds s) -> u_orc u = a -> u_time u <= t1) ->
+  (forall s2, unbond_gen true cap s1 a <> Ok s2) /\ bal_d s1 a = bal_d s a + matured_sum t1 (ubds s) a.
+Proof.
+  intros cap s t1 t2 pd s1 a H M. apply end_block_spec in H.
+  destruct H as (_ & _ & _ & _ & _ & _ & _ & _ & _ & BD & UB & _).
+  split; [|apply BD].
+  apply prefix_unbond_refused_without_pending_entry. rewrite UB. intros u Hu Eq.
+  apply filter_In in Hu. destruct Hu as [Hu Hc]. apply Bool.negb_true_iff in Hc. apply Z.leb_gt in Hc.
+  specialize (M u Hu Eq). lia.
+Qed.
+
+Theorem prefix_unbond_accepted_forfeits_pending_stake : forall cap s a s', unbond_gen true cap s a = Ok s' ->
+  exists u, In u (ubds s') /\ u_orc u = a /\ recs s' a = None.
+Proof.
+  intros cap s a s' H. destruct (unbond_gen_spec _ _ _ _ _ H) as (r & _ & _ & _ & HU & _ & _ & _ & _ & RN & _ & _ & UE & _).
+  unfold has_ubd in HU. apply existsb_exists in HU. destruct HU as (u & Hu & Hc).
+  apply andb_true_iff in Hc. destruct Hc as [Hc _]. apply Z.eqb_eq in Hc.
+  exists u. rewrite UE. repeat split; auto.
+Qed.
+
+(* after governance removal and maturity the withdrawal is refused, the stake sits at the keyless delegate address *)
+Theorem prefix_unbond_after_maturity_refuted : exists ops a r,
+  let s := run_with true false w_init ops in
+  recs s a = Some r /\ ~ In a (proposal s) /\ o_online r = false /\ o_slash r = 0 /\
+  (forall u, In u (ubds s) -> u_orc u <> a) /\
+  o_amount r = FX 10000 /\ bal_d s a = FX 10000 + 7 /\
+  step_with true false s (Unbond a) = Err e_staking.
+Proof.
+  exists w_A, 0, (mkOracle 0 100 200 (FX 10000) 2 false 0 0). cbv zeta.
+  split; [vm_compute; reflexivity|].
+  split; [vm_compute; intuition discriminate|].
+  split; [reflexivity|]. split; [reflexivity|].
+  split; [assert (E : ubds (run_with true false w_init w_A) = []) by (vm_compute; reflexivity); rewrite E; intros u []|].
+  split; [reflexivity|]. split; vm_compute; reflexivity.
+Qed.
+
+(* before maturity it is accepted, pays only what is liquid (7 units of reward), deletes the records; the stake
+   matures into the delegate address of an oracle that no longer exists; a second withdrawal is refused *)
+Theorem prefix_unbond_before_maturity_refuted : exists ops a,
+  let s := run_with true false w_init ops in
+  let s1 := exec_with true false s (Unbond a) in
+  step_with true false s (Unbond a) = Ok s1 /\
+    bal_o s1 a - bal_o s a = 7 /\ recs s1 a = None /\ burned s1 = 0 /\
+    (exists u, In u (ubds s1) /\ u_orc u = a /\ u_amt u = FX 10000) /\
+    let s2 := exec_with true false s1 (EndBlock 1814500 1814505 true) in
+    bal_d s2 a = FX 10000 /\ recs s2 a = None /\ step_with true false s2 (Unbond a) = Err e_notfound.
+Proof.
+  exists w_B, 0. cbv zeta.
+  split; [apply step_with_exec_ok; vm_compute; reflexivity|].
+  split; [vm_compute; reflexivity|]. split; [vm_compute; reflexivity|]. split; [vm_compute; reflexivity|].
+  split; [exists (mkUbd 0 0 1814410 (FX 10000) 3 (FX 10000)); vm_compute; auto|].
+  split; [vm_compute; reflexivity|]. split; vm_compute; reflexivity.
+Qed.
+
+(* ------------------------------------------------------------------ *)
+(* the life cycles, computed on the model of the checked tree (no hypothesis: [run] / [step] use the generated facts) *)
 Definition w_E : list op :=
   w_D ++ confirm_all 2 3 ++ [GovSet [0; 1; 2; 4; 5; 6] [(3, 5)]; EndBlock 1814600 1814605 true].
 
-Theorem unbond_life_cycle_if_fixed : Gen_OracleSlash.unbond_needs_entry = false ->
+Theorem unbond_life_cycle_on_tree :
   (let s := run w_init w_A in
    let s' := exec s (Unbond 0) in
    is_ok (step s (Unbond 0)) = true /\ bal_o s' 0 - bal_o s 0 = FX 10000 + 7 /\ bal_d s' 0 = 0 /\
@@ -703,33 +744,23 @@ Theorem unbond_life_cycle_if_fixed : Gen_OracleSlash.unbond_needs_entry = false 
    recs s 3 = Some (mkOracle 3 103 203 (FX 10000) 2 false 0 1) /\
    is_ok (step s (Unbond 3)) = true /\ bal_o s' 3 - bal_o s 3 = FX 2000 + 5 /\ burned s' = FX 8000 /\
    recs s' 3 = None /\ step s' (Unbond 3) = Err e_notfound) /\
-  (* before maturity it is refused and nothing changes *)
   step (run w_init w_B) (Unbond 0) = Err e_staking.
-Proof.
-  intro F; first
-  [ discriminate F
-  | cbv zeta; split; [|split]; vm_compute; repeat split; reflexivity ].
-Qed.
+Proof. cbv zeta; split; [|split]; vm_compute; repeat split; reflexivity. Qed.
 
-(* the same life cycle when the staking module has slashed the oracle's validator in between (5 % of validator 0,
-   which holds oracles 0, 3, 6): oracle 3 still moves what is left (9500 FX) to validator 2, governance still
-   removes oracle 0, and after maturity oracle 0 withdraws exactly the remaining 9500 FX + rewards, once *)
 Definition w_F : list op :=
   w_setup ++ confirm_all 1 (-1) ++
   [SlashVal 0 (FX 1505); ReDelegate 3 2 3; GovSet [1; 2; 3; 4; 5; 6] [(0, 7)]; EndBlock 1814500 1814505 true].
 
-Theorem validator_slash_life_cycle_if_fixed : Gen_OracleSlash.unbond_needs_entry = false ->
+Theorem validator_slash_life_cycle_on_tree :
   let s := run w_init w_F in
   let s' := exec s (Unbond 0) in
-  vtok s 0 = FX 9595 /\ vshr s 0 = FX 10100 * dec_one /\               (* validator 0: slashed, oracle 6 and itself left *)
+  vtok s 0 = FX 9595 /\ vshr s 0 = FX 10100 * dec_one /\
   recs s 3 = Some (mkOracle 3 103 203 (FX 10000) 2 true 2 0) /\ deleg s 3 2 = FX 9500 * dec_one /\ deleg s 3 0 = 0 /\
   recs s 0 = Some (mkOracle 0 100 200 (FX 10000) 2 false 0 0) /\ deleg s 0 0 = 0 /\ ubds s = [] /\
   bal_d s 0 = FX 9500 + 7 /\
   is_ok (step s (Unbond 0)) = true /\ bal_o s' 0 - bal_o s 0 = FX 9500 + 7 /\ recs s' 0 = None /\
   step s' (Unbond 0) = Err e_notfound.
-Proof.
-  intro F; first [ discriminate F | cbv zeta; vm_compute; repeat split; reflexivity ].
-Qed.
+Proof. cbv zeta; vm_compute; repeat split; reflexivity. Qed.
 
 (* ------------------------------------------------------------------ *)
 (* oracle-set requests and pruning (computed, no input bit)            *)
